@@ -62,7 +62,9 @@ class RefMachine:
             if self.kind == "pvi":
                 p = self.case["period"]
                 c = np.inf if self.n < p else B.periodic_measure(self.traj, self.n, p, self.g)
-                scale = max(np.abs(new).max(), self.eps) / (self.g ** (self.n - 1) if self.g < 1 else 1.0)
+                if np.isfinite(c) and abs(c - self.thr) <= B.periodic_noise(np.abs(new).max(), self.eps, self.g, self.n):
+                    self.border = True
+                scale = 0.0
             else:
                 test = "span" if self.kind == "rvi" else self.case.get("test", "span")
                 c = B.measure(test, new, old)
